@@ -99,6 +99,7 @@ type interpreter struct {
 	knownOpen map[string]bool
 	tree      *treeConc
 	allocs    []*value
+	slices    [][]value
 }
 
 type deferred struct {
@@ -336,6 +337,9 @@ func visitInstr(fr *frame, instr ssa.Instruction) continuation {
 		tElt := instr.Type().Underlying().(*types.Slice).Elem()
 		for i := range slice {
 			slice[i] = zero(tElt)
+		}
+		if i.tree != nil && cp > 0 && cp <= 4096 {
+			i.slices = append(i.slices, slice)
 		}
 		fr.env[instr] = slice[:ln]
 
